@@ -1,3 +1,299 @@
 (* Properties/C14.v — statements only. *)
-From Dnp3V Require Import Outstation.Session Outstation.SessionProofs.
+From Dnp3V Require Import Outstation.Session Outstation.SessionLemmas_c14 Outstation.SessionC14Proofs.
 Open Scope N_scope.
+
+(* Vocabulary (Outstation/SessionC14Proofs.v unless said otherwise):
+   item                      IEv t ev (the event ev arrives at time t) | IOb o (an observation of the session)
+   Trace cfg s tr            s is reached from start-up (ostart, then ostep for ANY events with non-negative
+                             sleeps and ANY answers of the environment) and tr is everything seen on the way
+   no_fuel tr                the marker OOutOfFuel does not occur (the model's fuel sufficed)
+   mrun mon m tr             runs the automaton `mon` over tr: Bad = the history breaks the rule,
+                             Dead = OOutOfFuel was met (nothing claimed after), Live m' = accepted
+   is_unsol b                the function byte of fragment b is 130 (UNSOLICITED_RESPONSE)
+   good s                    the reader holds no fragment and, outside the unsolicited confirm wait,
+                             no READ is deferred (SessionLemmas_c14.v)
+   started, unsol_ready, kview, set_classes, served, stamp ...   see the definitions; all are computable
+                             or first-order descriptions of Session.v's fields. *)
+
+(* ---- 1. unsolicited support disabled: every transmitted fragment is a solicited response (129) ---- *)
+Theorem C14_unsol_disabled_silent : forall cfg s tr,
+  o_unsol cfg = false -> Trace cfg s tr ->
+  forall d b, In (IOb (OTx d b)) tr -> nth 1 b 0 = 129.
+Proof. exact unsol_disabled_silent. Qed.
+Print Assumptions C14_unsol_disabled_silent.
+
+(* ---- 2. until a confirmation arrives only empty responses, each with the next sequence number ----- *)
+(* null_mon (conf, q): an unsolicited fragment seen before any IUnsolConfirmed must be 4 bytes long with
+   control byte 240 + q (FIR FIN CON UNS, sequence q); q then advances by one modulo 16 *)
+Theorem C14_null_until_confirmed_mon : forall cfg s tr,
+  Trace cfg s tr -> mrun null_mon (false, 0) tr <> Bad.
+Proof. exact null_until_confirmed_mon. Qed.
+Print Assumptions C14_null_until_confirmed_mon.
+
+(* the same in plain terms: in every prefix without a confirmation the k-th unsolicited fragment is
+   [240 + k mod 16; 130; iin1; iin2] *)
+Theorem C14_null_until_confirmed : forall cfg s tr pre post,
+  Trace cfg s tr -> tr = pre ++ post -> no_confirm pre -> no_fuel pre ->
+  null_seq 0 (unsol_txs pre).
+Proof. exact null_until_confirmed. Qed.
+Print Assumptions C14_null_until_confirmed.
+
+(* an empty response is never retried unchanged (zero retries), and it is what NullRequired waits for *)
+Theorem C14_null_never_retried : forall cfg s tr r ret dl,
+  Trace cfg s tr -> s_control s = CUnsolWait r true ret dl ->
+  ret = Some 0%nat /\ r_size r = 0%nat /\ s_unsol s = UNullRequired.
+Proof. exact null_never_retried. Qed.
+Print Assumptions C14_null_never_retried.
+
+(* ---- 3/4/5. one series at a time ------------------------------------------------------------------- *)
+(* series_mon: ODb (DbWriteUnsol c1 c2 c3) needs some class set, an earlier IUnsolConfirmed and nothing
+   outstanding; a first unsolicited transmission with more than 4 bytes needs such a DbWriteUnsol just
+   before it; while a response is outstanding (from its transmission to IUnsolConfirmed, IUnsolTimeout _
+   false, OSessionEnd, or the solicited answer sent in a step whose event is a DISABLE_UNSOLICITED
+   request to this outstation) every unsolicited transmission follows an IUnsolTimeout _ true, is
+   byte-identical to the outstanding one, and there are at most o_retries of them (none for an empty
+   response); IUnsolTimeout / IUnsolConfirmed occur only while a response is outstanding *)
+Theorem C14_series_accepted : forall cfg s tr,
+  Trace cfg s tr -> mrun (series_mon cfg) sm0 tr <> Bad.
+Proof. exact series_accepted. Qed.
+Print Assumptions C14_series_accepted.
+
+(* the moment event data is sent: ready (no pending retry delay), a class enabled, the triple handed
+   to the database is the enabled set, and NullRequired has been left *)
+Theorem C14_data_start_conditions : forall cfg x x' b o d bytes,
+  check_unsolicited cfg x = (x', b, o) -> In (OTx d bytes) o -> (4 < length bytes)%nat ->
+  o_unsol cfg = true /\
+  exists dl c1 c2 c3 o',
+    s_unsol x = UReady dl /\ unsol_ready x dl = true /\ any_enabled x = true /\ s_enabled x = (c1, c2, c3) /\
+    o = ODb (DbWriteUnsol c1 c2 c3) :: o'.
+Proof. exact data_start_conditions. Qed.
+Print Assumptions C14_data_start_conditions.
+
+(* within a step the enabled set is the one the step began with, or that set changed by the
+   ENABLE/DISABLE_UNSOLICITED request of the step's event as enable_disable says; every triple handed
+   to the database is one of the two *)
+Theorem C14_enabled_classes_step : forall cfg s tr ev a s' o,
+  Trace cfg s tr -> no_fuel tr -> ostep cfg s ev a = (s', o) ->
+  Forall (classes_ok cfg ev s) o /\ en_rel cfg ev s s'.
+Proof. exact enabled_classes_step. Qed.
+Print Assumptions C14_enabled_classes_step.
+
+(* ---- 5. timing of re-sends: exactly one confirm timeout after the previous transmission ------------ *)
+(* timing_mon: the clock is the arrival time of the event, then the last OAt marker; an unsolicited
+   transmission announced by IUnsolTimeout _ true happens at (time of the previous transmission) +
+   o_confirm_ms.  Nothing restarts the timer of an unsolicited confirm wait. *)
+Theorem C14_retry_timing : forall cfg s tr,
+  (0 <= o_confirm_ms cfg)%Z -> Trace cfg s tr -> mrun (timing_mon cfg) tm0 tr <> Bad.
+Proof. exact retry_timing. Qed.
+Print Assumptions C14_retry_timing.
+
+(* ---- 6. the retry delay -------------------------------------------------------------------------------- *)
+Theorem C14_retry_delay_set : forall cfg s r s' ns o,
+  end_unsol cfg s false r = (s', ns, o) -> r <> UrConfirmed ->
+  s_unsol s' = UReady (Some (s_now s + o_retry_delay_ms cfg)%Z) /\ s_control s' = CIdle /\ ns = false /\
+  o = [ODb DbReset].
+Proof. exact retry_delay_set. Qed.
+Print Assumptions C14_retry_delay_set.
+
+Theorem C14_check_not_ready : forall cfg s t,
+  s_unsol s = UReady (Some t) -> (s_now s < t)%Z -> check_unsolicited cfg s = (s, false, []).
+Proof. exact check_not_ready. Qed.
+Print Assumptions C14_check_not_ready.
+
+(* a step from a state whose retry delay runs until t: every unsolicited transmission of the step is
+   stamped (by the OAt markers) with a time >= t; and unless the clock reached t the state still waits *)
+Theorem C14_retry_delay_respected : forall cfg s tr t ev a s' o,
+  Trace cfg s tr -> s_unsol s = UReady (Some t) -> is_uw (s_control s) = false ->
+  ostep cfg s ev a = (s', o) -> ~ In OOutOfFuel o ->
+  (forall u d b, In (u, OTx d b) (stamp (s_now s) o) -> is_unsol b = true -> (t <= u)%Z) /\
+  ((t <= time_after (s_now s) o)%Z \/ (s_unsol s' = UReady (Some t) /\ is_uw (s_control s') = false)).
+Proof. exact retry_delay_respected. Qed.
+Print Assumptions C14_retry_delay_respected.
+
+(* ---- 7. nothing enabled: no event data, until an ENABLE_UNSOLICITED is processed ----------------------- *)
+(* only_resend s: a data-bearing unsolicited fragment is the response outstanding in s (re-sent) *)
+Theorem C14_disable_stops : forall cfg s tr ev a s' o,
+  Trace cfg s tr -> no_fuel tr -> any_enabled s = false -> is_enable_ev ev = false ->
+  ostep cfg s ev a = (s', o) ->
+  any_enabled s' = false /\ Forall (only_resend s) o.
+Proof. exact disable_stops. Qed.
+Print Assumptions C14_disable_stops.
+
+(* ---- 8. a READ during the unsolicited confirm wait ------------------------------------------------------ *)
+Theorem C14_read_deferred : forall cfg s resp n ret dl from bytes d ctl hdrs rh,
+  s_control s = CUnsolWait resp n ret dl ->
+  to_treq cfg from d = TqRequest ctl 1 (ObjOk hdrs rh) ->
+  on_rx cfg s from None bytes d =
+  (deferred_set (upd_frame_id s (next_fid s)) bytes (ctl_seq ctl) from rh, []).
+Proof. exact read_deferred. Qed.
+Print Assumptions C14_read_deferred.
+
+Theorem C14_deferred_superseded : forall cfg s resp from bc bytes d fid s1 res o,
+  unsol_wait_fragment cfg s resp from bc bytes d fid = (s1, res, o) ->
+  match to_treq cfg from d with
+  | TqNone => s_deferred s1 = s_deferred s
+  | TqError _ => s_deferred s1 = None
+  | TqRequest ctl fn obj =>
+      match classify s bc bytes ctl fn obj with
+      | FtUnsolConfirm _ | FtSolConfirm _ => s_deferred s1 = s_deferred s
+      | FtNewRead _ rh | FtRepeatRead _ _ rh =>
+          s_deferred s1 = Some {| df_bytes := bytes; df_seq := ctl_seq ctl; df_from := from;
+                                  df_iin2 := if forallb (fun b => b) rh then 0 else iin2_param |} /\
+          res = None /\ o = []
+      | _ => s_deferred s1 = None
+      end
+  end.
+Proof. exact deferred_superseded. Qed.
+Print Assumptions C14_deferred_superseded.
+
+Theorem C14_non_read_immediate : forall cfg s resp from bc bytes d fid s1 res o ctl fn obj,
+  unsol_wait_fragment cfg s resp from bc bytes d fid = (s1, res, o) ->
+  to_treq cfg from d = TqRequest ctl fn obj ->
+  match classify s bc bytes ctl fn obj with
+  | FtMalformed _ => exists o1 x, o = o1 ++ [x] /\ is_tx_to from (ctl_seq ctl) x /\ Forall evq o1
+  | FtNewNonRead _ =>
+      noresp_fn fn \/
+      exists o1 x, o = o1 ++ [x] /\ is_tx_to from (ctl_seq ctl) x /\ Forall (fun y => exob y \/ evq y) o1
+  | FtRepeatNonRead (Some r) => o = [OTx from (response_bytes r (s_sol_buf s))]
+  | _ => True
+  end.
+Proof. exact non_read_immediate. Qed.
+Print Assumptions C14_non_read_immediate.
+
+(* the next confirm timeout with a READ pending: no retry, the series ends, the READ is answered *)
+Theorem C14_deferred_served_timeout : forall cfg s resp n ret dl df s2 o,
+  s_control s = CUnsolWait resp n ret dl -> s_deferred s = Some df ->
+  fire_deadline cfg s = (s2, o) ->
+  exists ans tl,
+    o = OInfo (IUnsolTimeout (ctl_seq (r_ctl resp)) false) :: (if n then [] else [ODb DbReset]) ++ ans ++ tl /\
+    served df ans.
+Proof. exact deferred_served_timeout. Qed.
+Print Assumptions C14_deferred_served_timeout.
+
+Theorem C14_deferred_served_confirm : forall cfg s resp n ret dl df from bytes d ctl obj s2 o,
+  s_control s = CUnsolWait resp n ret dl -> s_deferred s = Some df ->
+  to_treq cfg from d = TqRequest ctl fn_confirm obj ->
+  ctl_uns ctl = true -> ctl_seq ctl = ctl_seq (r_ctl resp) ->
+  on_rx cfg s from None bytes d = (s2, o) ->
+  exists ans tl,
+    o = OInfo (IUnsolConfirmed (ctl_seq (r_ctl resp))) :: (if n then [] else [ODb DbClearWritten]) ++ ans ++ tl /\
+    served df ans.
+Proof. exact deferred_served_confirm. Qed.
+Print Assumptions C14_deferred_served_confirm.
+
+Theorem C14_deferred_served_sleep : forall cfg s resp n ret dl df ms a s2 o,
+  s_control s = CUnsolWait resp n ret dl -> s_deferred s = Some df -> (dl <= s_now s + ms)%Z ->
+  ostep cfg s (ESleep ms) a = (s2, o) ->
+  exists ans tl,
+    o = OAt (Z.max dl (s_now s)) :: OInfo (IUnsolTimeout (ctl_seq (r_ctl resp)) false)
+        :: (if n then [] else [ODb DbReset]) ++ ans ++ tl /\
+    served df ans.
+Proof. exact deferred_served_sleep. Qed.
+Print Assumptions C14_deferred_served_sleep.
+
+(* between steps the reader holds nothing and a deferred READ exists only during the wait *)
+Theorem C14_between_steps : forall cfg s tr,
+  Trace cfg s tr -> In (IOb OOutOfFuel) tr \/ good s.
+Proof. exact trace_good. Qed.
+Print Assumptions C14_between_steps.
+
+(* ---- the hypotheses are satisfiable: concrete histories -------------------------------------------------- *)
+
+Definition ex_cfg : ocfg := {|
+  o_master := 1; o_any_master := false; o_unsol := true; o_broadcast := true;
+  o_confirm_ms := 1000; o_select_ms := 5000; o_retries := Some 2%nat; o_retry_delay_ms := 3000;
+  o_max_controls := None; o_sol_tx := 2048%nat; o_delay_ms := 0; o_cold := None; o_warm := None;
+  o_wtime := 0; o_freeze := 0 |}.
+
+Definition uconf (q : N) : oevent := ERx 1 None [208 + q; 0] (DOk (208 + q) 0 RvOk (ObjOk [] [])).
+Definition enable1 (q : N) : oevent :=
+  ERx 1 None [192 + q; 20; 60; 2; 6] (DOk (192 + q) 20 RvOk (ObjOk [WCls 1] [true])).
+Definition read1 (q : N) : oevent :=
+  ERx 1 None [192 + q; 1; 60; 2; 6] (DOk (192 + q) 1 RvOk (ObjOk [WCls 1] [true])).
+Definition ev0 : answer := AEvinfo false false false false.
+Definition body1 : list N := [2; 1; 40; 1; 0; 7; 0; 129].
+
+(* start-up: the empty response is repeated with fresh sequence numbers 0, 1, 2 and then confirmed *)
+Definition ex1 : list (oevent * list answer) := [(ESleep 1000, [ev0]); (ESleep 1000, [ev0]); (uconf 2, [])].
+
+Example C14_ex1_history :
+  snd (trace_of ex_cfg 0 0 0 [ev0] ex1) =
+  [IOb (ODb DbEvinfo); IOb (OTx 1 [240; 130; 128; 0]); IOb (OInfo (IEnterUnsolWait 0));
+   IEv 0 (ESleep 1000);
+   IOb (OAt 1000); IOb (OInfo (IUnsolTimeout 0 false));
+   IOb (ODb DbEvinfo); IOb (OTx 1 [241; 130; 128; 0]); IOb (OInfo (IEnterUnsolWait 1));
+   IEv 1000 (ESleep 1000);
+   IOb (OAt 2000); IOb (OInfo (IUnsolTimeout 1 false));
+   IOb (ODb DbEvinfo); IOb (OTx 1 [242; 130; 128; 0]); IOb (OInfo (IEnterUnsolWait 2));
+   IEv 2000 (uconf 2);
+   IOb (OInfo (IUnsolConfirmed 2))].
+Proof. vm_compute. reflexivity. Qed.
+
+Example C14_ex1_is_a_trace :
+  Trace ex_cfg (fst (trace_of ex_cfg 0 0 0 [ev0] ex1)) (snd (trace_of ex_cfg 0 0 0 [ev0] ex1)).
+Proof. apply trace_of_Trace. repeat constructor; cbn; lia. Qed.
+
+Example C14_ex1_null_mon : mrun null_mon (false, 0) (snd (trace_of ex_cfg 0 0 0 [ev0] ex1)) = Live (true, 3).
+Proof. vm_compute. reflexivity. Qed.
+
+(* after the confirmation class 1 is enabled; an event is reported, re-sent twice unchanged one confirm
+   timeout apart, and given up (two retries configured) *)
+Definition ex2 : list (oevent * list answer) :=
+  [(uconf 0, []); (enable1 3, [ev0]); (EDbChange, [AUnsol 1 body1; ev0]);
+   (ESleep 1000, []); (ESleep 1000, []); (ESleep 1000, [])].
+
+Example C14_ex2_history :
+  snd (trace_of ex_cfg 0 0 0 [ev0] ex2) =
+  [IOb (ODb DbEvinfo); IOb (OTx 1 [240; 130; 128; 0]); IOb (OInfo (IEnterUnsolWait 0));
+   IEv 0 (uconf 0);
+   IOb (OInfo (IUnsolConfirmed 0));
+   IEv 1 (enable1 3);
+   IOb (OInfo (IIdleRequest 20 3)); IOb (ODb DbEvinfo); IOb (OTx 1 [195; 129; 128; 0]);
+   IEv 2 EDbChange;
+   IOb (ODb (DbWriteUnsol true false false)); IOb (ODb DbEvinfo);
+   IOb (OTx 1 ([241; 130; 128; 0] ++ body1)); IOb (OInfo (IEnterUnsolWait 1));
+   IEv 3 (ESleep 1000);
+   IOb (OAt 1002); IOb (OInfo (IUnsolTimeout 1 true)); IOb (OTx 1 ([241; 130; 128; 0] ++ body1));
+   IEv 1003 (ESleep 1000);
+   IOb (OAt 2002); IOb (OInfo (IUnsolTimeout 1 true)); IOb (OTx 1 ([241; 130; 128; 0] ++ body1));
+   IEv 2003 (ESleep 1000);
+   IOb (OAt 3002); IOb (OInfo (IUnsolTimeout 1 false)); IOb (ODb DbReset)].
+Proof. vm_compute. reflexivity. Qed.
+
+Example C14_ex2_series_mon :
+  mrun (series_mon ex_cfg) sm0 (snd (trace_of ex_cfg 0 0 0 [ev0] ex2)) =
+  Live {| sm_w := WNone; sm_armed := false; sm_dis := false; sm_conf := true |}.
+Proof. vm_compute. reflexivity. Qed.
+
+Example C14_ex2_timing_mon :
+  mrun (timing_mon ex_cfg) tm0 (snd (trace_of ex_cfg 0 0 0 [ev0] ex2)) =
+  Live {| tm_clock := 3002; tm_last := Some 2002%Z; tm_resend := false |}.
+Proof. vm_compute. reflexivity. Qed.
+
+(* the retry delay is armed: 3002 + 3000 *)
+Example C14_ex2_retry_delay : s_unsol (fst (trace_of ex_cfg 0 0 0 [ev0] ex2)) = UReady (Some 6002%Z).
+Proof. vm_compute. reflexivity. Qed.
+
+(* a READ arrives during the wait: nothing is sent in that step; at the confirm timeout the series ends
+   without a retry and the READ is answered with its sequence number 4 *)
+Definition ex3 : list (oevent * list answer) :=
+  [(uconf 0, []); (enable1 3, [ev0]); (EDbChange, [AUnsol 1 body1; ev0]);
+   (read1 4, []);
+   (ESleep 999, [AIin2 0; AWrite true true body1; AEvinfo true false false false])].
+
+Example C14_ex3_history :
+  snd (trace_of ex_cfg 0 0 0 [ev0] ex3) =
+  [IOb (ODb DbEvinfo); IOb (OTx 1 [240; 130; 128; 0]); IOb (OInfo (IEnterUnsolWait 0));
+   IEv 0 (uconf 0);
+   IOb (OInfo (IUnsolConfirmed 0));
+   IEv 1 (enable1 3);
+   IOb (OInfo (IIdleRequest 20 3)); IOb (ODb DbEvinfo); IOb (OTx 1 [195; 129; 128; 0]);
+   IEv 2 EDbChange;
+   IOb (ODb (DbWriteUnsol true false false)); IOb (ODb DbEvinfo);
+   IOb (OTx 1 ([241; 130; 128; 0] ++ body1)); IOb (OInfo (IEnterUnsolWait 1));
+   IEv 3 (read1 4);
+   IEv 4 (ESleep 999);
+   IOb (OAt 1002); IOb (OInfo (IUnsolTimeout 1 false)); IOb (ODb DbReset);
+   IOb (ODb DbDeferredSelect); IOb (ODb DbWrite); IOb (ODb DbEvinfo);
+   IOb (OTx 1 ([228; 129; 130; 0] ++ body1)); IOb (OInfo (IEnterSolWait 4))].
+Proof. vm_compute. reflexivity. Qed.
